@@ -22,6 +22,11 @@ pub enum Op {
     FromLen { len: usize, seed: u64 },
     /// write_exact into a buffer of `buflen` bytes panics iff buflen != size
     WriteExact { ikm: Bytes, buflen: usize },
+    /// two right-length inputs, the second derived from the first by `edit` (0 two bytes swapped,
+    /// 1 the same bit flipped in two bytes, 2 one byte copied over another, 3 three bytes XORed with
+    /// masks that cancel, 4 one bit flipped, 5 unrelated second value from `seed`): when both are
+    /// accepted, the values are equal exactly when their serialisations are (bijection)
+    Pair { a: Bytes, edit: u8, i: u16, j: u16, seed: u64 },
 }
 
 #[derive(Clone, Debug, Serialize, Deserialize)]
@@ -168,6 +173,67 @@ fn check(case: &Case, obs: &mut Obs) -> Verdict {
             }
             Verdict::Pass
         }
+        Op::Pair { a, edit, i, j, seed } => {
+            obs.label("op:pair");
+            obs.label(format!("pair-edit:{}", edit % 6));
+            obs.nontrivial = true;
+            if a.len() != size || size < 3 {
+                return Verdict::skip("pair needs right-length input");
+            }
+            let (i, j) = (crate::engine::pick_index(*i, size), crate::engine::pick_index(*j, size));
+            let mut b = a.0.clone();
+            match edit % 6 {
+                0 => b.swap(i, j),
+                1 => {
+                    let m = 1u8 << (seed % 8);
+                    b[i] ^= m;
+                    if j != i {
+                        b[j] ^= m;
+                    }
+                }
+                2 => b[i] = b[j],
+                3 => {
+                    let k = (i + j + 1) % size;
+                    if i != j && k != i && k != j {
+                        let (m1, m2) = ((*seed as u8) | 1, ((*seed >> 8) as u8) | 2);
+                        b[i] ^= m1;
+                        b[j] ^= m2;
+                        b[k] ^= m1 ^ m2;
+                    } else {
+                        b[i] ^= 0x10;
+                    }
+                }
+                4 => b[i] ^= 1u8 << (seed % 8),
+                _ => {
+                    b = gen::fill(size, 9, *seed);
+                    if kem != KemId::X25519 && matches!(kind, SerKind::Pk | SerKind::Enc) {
+                        b[0] = 4;
+                    }
+                }
+            }
+            match ser.pair_eq(a, &b) {
+                Err(_) => {
+                    obs.label("pair:one-rejected");
+                    Verdict::Pass
+                }
+                Ok((eq, ta, tb)) => {
+                    obs.label("pair:both-accepted");
+                    let Some(eq) = eq else { return Verdict::Pass };
+                    if ta == tb {
+                        ensure!(eq, "C12/eq/identical-serialisation-unequal-values", "{}: values parsed from {} and {} serialise identically but do not compare equal", tname, hex_short(a), hex_short(&b));
+                    }
+                    if eq {
+                        ensure!(
+                            same_up_to_clamping(kem, kind, &ta, &tb),
+                            "C12/eq/distinct-serialisation-equal-values",
+                            "{}: values parsed from {} and {} compare equal but serialise as {} and {} (serialisation is not injective on values)",
+                            tname, hex_short(a), hex_short(&b), hex_short(&ta), hex_short(&tb)
+                        );
+                    }
+                    Verdict::Pass
+                }
+            }
+        }
         Op::WriteExact { ikm, buflen } => {
             obs.label("op:write-exact");
             obs.nontrivial = *buflen != size;
@@ -213,7 +279,7 @@ impl Property for P {
     fn rule(&self) -> String {
         "Generated for the 16 serialisable types (4 KEMs x {public, private, encapsulated key} + 4 AEAD tag types): values from derive_keypair/encap/seal; accepted byte strings (C09's constructed NIST encodings, arbitrary 32 bytes for X25519, arbitrary Nt bytes for tags); inputs and write_exact buffers of every length. \
          Swept: every length 0..=2*size+2 for all 16 types, for from_bytes and for write_exact; every constructed NIST encoding of C09's vocabulary and 24 random right-length strings per type (whatever is accepted must re-serialise identically). \
-         Oracle: size()/to_bytes().len() equal the RFC 9180 table; from_bytes(to_bytes(v)) == v (Eq for keys, bytes otherwise); to_bytes(from_bytes(b)) == b for accepted b (X25519 private key: up to clamping); wrong length => IncorrectInputLength(size, len); write_exact panics iff buf.len() != size and otherwise writes to_bytes(). \
+         Oracle: size()/to_bytes().len() equal the RFC 9180 table; from_bytes(to_bytes(v)) == v (Eq for keys, bytes otherwise); for two accepted inputs (the second an edit of the first: bytes swapped, one bit flipped in two bytes, a byte copied, three cancelling masks, one bit, or unrelated) the values compare equal exactly when their serialisations are equal (X25519 private keys: equal values serialise to the same clamped scalar); to_bytes(from_bytes(b)) == b for accepted b (X25519 private key: up to clamping); wrong length => IncorrectInputLength(size, len); write_exact panics iff buf.len() != size and otherwise writes to_bytes(). \
          Non-trivial: a non-default curve or tag type, or a length != size."
             .into()
     }
@@ -222,7 +288,7 @@ impl Property for P {
     }
     fn strategy(&self, _tier: Tier) -> BoxedStrategy<Case> {
         let ty = proptest::sample::select(all_types());
-        (ty, 0u8..4, gen::ikm(), any::<u64>(), any::<u16>(), 0usize..280)
+        (ty, 0u8..6, gen::ikm(), any::<u64>(), any::<u16>(), 0usize..280)
             .prop_map(|((kem, aead, kind), which, ikm, seed, idx, len)| {
                 let size = rfc_size(kem, aead, kind);
                 let op = match which {
@@ -238,6 +304,16 @@ impl Property for P {
                         Op::Accepted { bytes: Bytes(bytes) }
                     }
                     2 => Op::FromLen { len: if len % 3 == 0 { size } else { len % (2 * size + 3) }, seed },
+                    4 | 5 => {
+                        // first value: a library-valid encoding (NIST public keys must be on the curve)
+                        let a = if kem != KemId::X25519 && kind != SerKind::Tag {
+                            let (sk, pk) = gen::ref_keypair(kem, &ikm);
+                            if kind == SerKind::Sk { sk } else { pk }
+                        } else {
+                            gen::fill(size, 3 + (seed % 9) as u8, seed ^ 0x55)
+                        };
+                        Op::Pair { a: Bytes(a), edit: (seed >> 16) as u8, i: idx, j: (seed >> 32) as u16, seed }
+                    }
                     _ => Op::WriteExact { ikm, buflen: if len % 3 == 0 { size } else { len % (2 * size + 3) } },
                 };
                 Case { kem, aead, kind, op }
@@ -285,7 +361,29 @@ impl Property for P {
                 accepted.push(Case { kem, aead, kind, op: Op::Accepted { bytes: Bytes(b) } });
             }
         }
-        vec![("derived_values".into(), derived), ("constructed_and_random_right_length_inputs".into(), accepted), ("from_bytes_every_length".into(), lens), ("write_exact_every_buffer_length".into(), bufs)]
+        // every pair of positions swapped / doubly flipped in one right-length value per type
+        let mut pairs = Vec::new();
+        for (kem, aead, kind) in all_types() {
+            let size = rfc_size(kem, aead, kind);
+            let a = if kem != KemId::X25519 && kind != SerKind::Tag {
+                let (sk, pk) = gen::ref_keypair(kem, &gen::fill(kem.nsk(), 9, 1212));
+                if kind == SerKind::Sk { sk } else { pk }
+            } else {
+                gen::fill(size, 9, 1213)
+            };
+            let step = (size / 16).max(1);
+            for i in (0..size).step_by(step) {
+                for j in (0..size).step_by(step) {
+                    if i < j {
+                        let (pi, pj) = (((i * 65536 + 65535) / size) as u16, ((j * 65536 + 65535) / size) as u16);
+                        for edit in 0..4u8 {
+                            pairs.push(Case { kem, aead, kind, op: Op::Pair { a: Bytes(a.clone()), edit, i: pi, j: pj, seed: (i * 7 + j) as u64 } });
+                        }
+                    }
+                }
+            }
+        }
+        vec![("position_pairs_edited_in_one_value".into(), pairs), ("derived_values".into(), derived), ("constructed_and_random_right_length_inputs".into(), accepted), ("from_bytes_every_length".into(), lens), ("write_exact_every_buffer_length".into(), bufs)]
     }
     fn check(&self, case: &Case, obs: &mut Obs) -> Verdict {
         check(case, obs)
